@@ -24,7 +24,7 @@ RULE = (
 ASSUMPTIONS = ["no symlinks; outputs inside the project directory", "a declared output that exists as a directory is not a file in the sense of the property: clean may leave it in place"]
 
 
-QUICK_BUDGET = {"cases": 3200, "deadline_s": 170, "case_timeout_s": 60, "floors": {"clean_runs": 1120, "files_compared": 28965, "remove_events_checked": 3000, "declined_checked": 175, "undeletable_output_cases": 150, "appeared_during_prompt": 45}}
+QUICK_BUDGET = {"cases": 3200, "deadline_s": 170, "case_timeout_s": 60, "floors": {"clean_runs": 1120, "files_compared": 28965, "remove_events_checked": 3000, "declined_checked": 175, "undeletable_output_cases": 150, "appeared_during_prompt": 45, "explicit_working_dir_cases": 300}}
 THOROUGH_FACTOR = 11  # thorough = the same workload with 11x the cases (floors scale along)
 
 
@@ -74,6 +74,7 @@ def gen_case(rng, idx, tier):
         "dir_pick": rng.randrange(1 << 30) if rng.random() < 0.15 else None,
         "late_pick": rng.randrange(1 << 30) if rng.random() < 0.5 else None,
         "verbosity": rng.choice([None, None, "warning", "error", "debug"]),
+        "explicit_wd": rng.choice([None, None, None, None, None, "plain", "with_gwf_dir"]),
     }
 
 
@@ -81,28 +82,35 @@ def run_case(case):
     res = Result()
     with gen.Project() as proj:
         root = proj.root
+        # the workflow may set its working directory explicitly (Workflow(working_dir=...)): the files then live there,
+        # while configuration, logs and the spec-hash records stay with the project (next to workflow.py)
+        wd = root
+        if case.get("explicit_wd"):
+            wd = os.path.join(proj.base, "datadir")
+            os.makedirs(os.path.join(wd, ".gwf") if case["explicit_wd"] == "with_gwf_dir" else wd, exist_ok=True)
+            res.mon("explicit_working_dir_cases")
         ts = case["dag"]["targets"]
         variant = []
         for t in ts:
-            pl = [spell(k, f).replace("@ROOT@", root) for k, f in t["protect"]]
+            pl = [spell(k, f).replace("@ROOT@", wd) for k, f in t["protect"]]
             pe = None
             if pl:
                 pe = {"list": repr(pl), "set": "set(%r)" % (pl,), "tuple": repr(tuple(pl))}[case["protect_shape"]]
             variant.append({"name": t["name"], "ins_expr": repr(t["ins"]), "outs_expr": repr(t["outs"]), "spec": t["spec"], "route": "target", "protect_expr": pe})
-        proj.write_workflow(gen.render_workflow(variant))
+        proj.write_workflow(gen.render_workflow(variant, wf_kwargs=("working_dir=%r" % wd) if wd != root else ""))
         cfg = {"backend": "slurm"}
         if case["hashing"]:
             cfg["use_spec_hashes"] = True
         proj.write_config(cfg)
         for f, tk in case["ticks"].items():
-            proj.set_file(f, tk)
+            proj.set_file(os.path.join(wd, f), tk)
         dir_output = None
         existing_outs = sorted(o for t in ts for o in t["outs"] if case["ticks"].get(o) is not None)
         if case.get("dir_pick") is not None and existing_outs:
             dir_output = existing_outs[case["dir_pick"] % len(existing_outs)]
-            os.remove(proj.path(dir_output))
-            os.makedirs(proj.path(dir_output))
-            proj.write(dir_output + "/inner.txt", "inside a directory that is declared as an output\n")
+            os.remove(os.path.join(wd, dir_output))
+            os.makedirs(os.path.join(wd, dir_output))
+            proj.write(os.path.join(wd, dir_output, "inner.txt"), "inside a directory that is declared as an output\n")
             res.mon("undeletable_output_cases")
         proj.write("unrelated.txt", "keep me\n")
         proj.write("data/other.dat", "keep me too\n")
@@ -113,7 +121,7 @@ def run_case(case):
         recs["ghost"] = "0" * 40
         proj.write_state("spec-hashes.json", recs)
         proj.write_state("slurm-backend-tracked.json", {ts[0]["name"]: "77"})
-        mts = [dict(t, wd=root) for t in ts]
+        mts = [dict(t, wd=wd) for t in ts]
         deps, _, _ = model.dependency_relation(mts)
         names = set(deps)
         ends = model.endpoints(deps)
@@ -126,7 +134,7 @@ def run_case(case):
         removable = set()
         protected_existing = False
         for t in mts:
-            prot = {model.resolve(root, spell(k, f).replace("@ROOT@", root)) for k, f in t["protect"]}
+            prot = {model.resolve(wd, spell(k, f).replace("@ROOT@", wd)) for k, f in t["protect"]}
             for p in model.res_outs(t):
                 if os.path.exists(p) and p in prot:
                     protected_existing = True
@@ -135,7 +143,7 @@ def run_case(case):
         allowed_attempts = set()
         for t in mts:
             if t["name"] in selected:
-                prot = {model.resolve(root, spell(k, f).replace("@ROOT@", root)) for k, f in t["protect"]}
+                prot = {model.resolve(wd, spell(k, f).replace("@ROOT@", wd)) for k, f in t["protect"]}
                 allowed_attempts |= {p for p in model.res_outs(t) if p not in prot}
         # invoking directory: project root, a sub-directory (parent search) or an unrelated directory with -f;
         # files with the SAME relative names as the outputs exist below the invoking directory (decoys)
@@ -201,7 +209,7 @@ def run_case(case):
             wrong = sorted(removed - removable)
             missed = sorted(removable - removed)
             if wrong:
-                mech = "deleted-protected" if any(w in {model.resolve(root, spell(k, f).replace("@ROOT@", root)) for t in ts for k, f in t["protect"]} for w in wrong) else "deleted-wrong-file"
+                mech = "deleted-protected" if any(w in {model.resolve(wd, spell(k, f).replace("@ROOT@", wd)) for t in ts for k, f in t["protect"]} for w in wrong) else "deleted-wrong-file"
                 res.violation(mech, "clean removed %s which it must not (removable: %s)" % ([os.path.relpath(w, root) for w in wrong], sorted(os.path.relpath(x, root) for x in removable)), **ctx)
             if missed:
                 res.violation("not-deleted", "clean left %s although they are unprotected existing outputs of selected targets" % [os.path.relpath(w, root) for w in missed], **ctx)
